@@ -359,13 +359,16 @@ def run(ck):
 KNOWN_COPIED_ORDER = 'C02-copied-components-behind-root'
 
 
+KNOWN_AFTER_MARKER = 'C02-components-of-after-marker'
+
+
 def components_of_with_marker(ck):
-    """COMPONENTS OF next to an extension marker, one or two levels deep: the fields of the including types and their
-    extension_addition flags against the linker model (Expansion.link_marked, inside Coq) and against the meaning: the copied root
-    components and the own root components are no additions, the own additions -- all of them, nothing else -- are; order = the
-    notation replaced in place"""
+    """COMPONENTS OF next to an extension marker -- one or two notations, in the root or after the marker, one or two levels deep:
+    the fields of the including types and their extension_addition flags against the linker model (Expansion.link_marked, inside
+    Coq) and against the meaning: own root components and components copied for a notation in the root are no additions, own
+    additions and components copied for a notation after the marker are; order = every notation replaced in place"""
     rng = ck.rng
-    n = 60 if ck.tier == 'quick' else 900
+    n = 80 if ck.tier == 'quick' else 1200
     cases, meta = [], []
     for k in range(n):
         ty = lambda nm: '%s %s' % (nm, rng.choice(['BOOLEAN', 'NULL', 'INTEGER', 'IA5String']))
@@ -376,35 +379,71 @@ def components_of_with_marker(ck):
             adds = ['%sa%d' % (prefix, i) for i in range(rng.choice([0, 0, 1, 2]))]
             return root, adds, bool(adds) or rng.random() < 0.4
 
-        def text(root, adds, mark, pos, ref):
-            items = [ty(m) for m in root]
-            if ref:
-                items.insert(pos, 'COMPONENTS OF %s' % ref)
-            return ', '.join(items + (['...'] if mark else []) + [ty(m) for m in adds])
+        def text(root, adds, mark, notes):
+            """notes: list of (where, pos, ref), positions referring to the list before any insertion"""
+            r_items = [[ty(m)] for m in root] + [[]]
+            a_items = [[ty(m)] for m in adds] + [[]]
+            for where, pos, ref in notes:
+                (r_items if where == 'root' else a_items)[pos].insert(0, 'COMPONENTS OF %s' % ref)
+            # a notation inserted at pos stands in front of the component at pos (several at one pos keep their order of insertion reversed)
+            flat = lambda items: [x for cell in items for x in cell]
+            return ', '.join(flat(r_items) + (['...'] if mark else []) + flat(a_items))
 
         yroot, yadds, ymark = level('y', 1)
-        deep = rng.random() < 0.5
+        wroot, wadds, wmark = level('w', 1)
+        deep = rng.random() < 0.4
         xroot, xadds, xmark = level('x', 1)
         xpos = rng.randint(0, len(xroot))
         own_root, own_adds, marker = level('r', 0)
-        pos = rng.randint(0, len(own_root))
         # names chosen so that each including type is processed after (Aa, Mm) or before (Zz, Xx) the one it includes in the pass
         incl = rng.choice(['Aa', 'Zz'])
         mid = rng.choice(['Mm', 'Xx'])
         inner = rng.choice(['Bb', 'Yy'])
-        lines = ['%s ::= %s { %s }' % (mid, kind, text(xroot, xadds, xmark, xpos, inner if deep else None)),
-                 '%s ::= %s { %s }' % (incl, kind, text(own_root, own_adds, marker, pos, mid))]
+        other = rng.choice(['Cc', 'Ww'])
+        mid_copied = yroot if deep else []
+        # the notations of the including type: the first refers to mid, an optional second one to `other`
+        notes = []
+        where1 = 'adds' if marker and rng.random() < 0.3 else 'root'
+        notes.append((where1, rng.randint(0, len(own_adds if where1 == 'adds' else own_root)), mid, xroot + mid_copied,
+                      xroot[:xpos] + mid_copied + xroot[xpos:]))
+        two = rng.random() < 0.4
+        if two:
+            where2 = 'adds' if marker and rng.random() < 0.3 else 'root'
+            notes.append((where2, rng.randint(0, len(own_adds if where2 == 'adds' else own_root)), other, wroot, wroot))
+        lines = ['%s ::= %s { %s }' % (mid, kind, text(xroot, xadds, xmark, [('root', xpos, inner)] if deep else [])),
+                 '%s ::= %s { %s }' % (incl, kind, text(own_root, own_adds, marker, [(w, p_, r_) for w, p_, r_, _, _ in notes]))]
         if deep:
-            lines.append('%s ::= %s { %s }' % (inner, kind, text(yroot, yadds, ymark, 0, None)))
+            lines.append('%s ::= %s { %s }' % (inner, kind, text(yroot, yadds, ymark, [])))
+        if two:
+            lines.append('%s ::= %s { %s }' % (other, kind, text(wroot, wadds, wmark, [])))
         rng.shuffle(lines)
         src = 'Mk%d DEFINITIONS AUTOMATIC TAGS ::= BEGIN\n%s\nEND\n' % (k, '\n'.join(lines))
         cases.append({'op': 'compile', 'sources': [src]})
-        # what each including type copies: the root of the included one after ITS notation has been resolved (own root, then copied)
-        mid_copied = yroot if deep else []
-        subjects = [(incl, own_root, own_adds, xroot + mid_copied, marker,
-                     own_root[:pos] + (xroot[:xpos] + mid_copied + xroot[xpos:]) + own_root[pos:] + own_adds)]
+
+        def in_place(root, adds, notes_):
+            """the expansion: every notation replaced by the components it stands for, in writing order"""
+            r_items = [[m] for m in root] + [[]]
+            a_items = [[m] for m in adds] + [[]]
+            for where, pos, _, _, placed in notes_:
+                cell = (r_items if where == 'root' else a_items)[pos]
+                cell[0:0] = placed
+            flat = lambda items: [x for cell in items for x in cell]
+            return flat(r_items), flat(a_items)
+
+        def writing_order(notes_):
+            """the order in which the parser collects the notations: root list first, by position (a later insertion at the same
+            position stands in front), then the additions"""
+            keyed = []
+            for idx_, nt in enumerate(notes_):
+                keyed.append(((0 if nt[0] == 'root' else 1), nt[1], -idx_, nt))
+            return [nt for _, _, _, nt in sorted(keyed, key=lambda t: t[:3])]
+
+        ordered = writing_order(notes)
+        copied_all = [m for nt in ordered for m in nt[3]]
+        exp_root, exp_adds = in_place(own_root, own_adds, notes)
+        subjects = [(incl, own_root, own_adds, copied_all, marker, exp_root, exp_adds)]
         if deep:
-            subjects.append((mid, xroot, xadds, yroot, xmark, xroot[:xpos] + yroot + xroot[xpos:] + xadds))
+            subjects.append((mid, xroot, xadds, yroot, xmark, xroot[:xpos] + yroot + xroot[xpos:], xadds))
         meta.append((src, subjects))
     res = run_harness(cases)
     terms, idx = [], []
@@ -412,14 +451,14 @@ def components_of_with_marker(ck):
         ck.note_case(src)
         ck.count('components-of-with-marker')
         if 'panic' in r or 'crash' in r:
-            ck.count('panic-or-crash')
+            ck.violation('impl-violation', src, impl={x: y for x, y in r.items() if x not in ('generated', 'items')}, why='compiler crashed')
             continue
         if not r.get('ok') or 'items' not in r or r.get('warnings'):
             ck.violation('impl-violation', src, why='a module using COMPONENTS OF next to an extension marker is rejected or warned about',
                          impl={x: y for x, y in r.items() if x not in ('generated', 'items')})
             continue
         mod = [m for m in r['items'] if m.get('kind') == 'mod'][0]
-        for name, own_root, own_adds, copied, marker, want_order in subjects:
+        for name, own_root, own_adds, copied, marker, exp_root, exp_adds in subjects:
             it = [x for x in mod['items'] if x.get('name') == name and x.get('kind') == 'struct']
             if not it:
                 ck.violation('impl-violation', src, why='no struct for %s' % name)
@@ -429,17 +468,26 @@ def components_of_with_marker(ck):
                                                   clist(obs, lambda p: '(%s, %s)' % (cstr(p[0]), cbool(p[1])))))
             idx.append((src, name))
             # the meaning of the notation
-            want_flags = dict([(m, False) for m in own_root + copied] + [(m, True) for m in own_adds])
-            if dict(obs) != want_flags or len(obs) != len(want_flags):
-                ck.violation('impl-violation', src, type=name, fields=obs, expected=want_flags,
-                             why='the fields of %s or their extension_addition marking are not those of its components: own and copied root '
-                                 'components are no additions, the components after the marker are' % name)
-            elif [x for x, _ in obs] != want_order:
-                if ck.is_known(KNOWN_COPIED_ORDER):
-                    ck.known_hit(KNOWN_COPIED_ORDER, {'asn1': src, 'type': name, 'fields': [x for x, _ in obs], 'expansion': want_order})
-                else:
-                    ck.violation('impl-violation', src, type=name, fields=[x for x, _ in obs], expansion=want_order,
-                                 why='the fields of %s are not in the order of its expansion' % name)
+            want = [(m, False) for m in exp_root] + [(m, True) for m in exp_adds]
+            if obs == want:
+                continue
+            copied_late = [m for m in exp_adds if m not in own_adds]        # copied for a notation written after the marker
+            # the two known departures, exactly: the copied components stand behind the own root components, in the order of the
+            # notations; those copied for a notation after the marker are not marked as additions
+            known_shape = [(m, False) for m in own_root + copied] + [(m, True) for m in own_adds]
+            if obs == known_shape and dict(obs) == dict(want):
+                slug = KNOWN_COPIED_ORDER
+            elif obs == known_shape and all(dict(obs)[m] == dict(want)[m] for m in dict(want) if m not in copied_late):
+                slug = KNOWN_AFTER_MARKER
+            else:
+                slug = None
+            if slug and ck.is_known(slug):
+                ck.known_hit(slug, {'asn1': src, 'type': name, 'fields': obs, 'expansion': want})
+            else:
+                ck.violation('impl-violation', src, type=name, fields=obs, expansion=want,
+                             why='the fields of %s, their order or their extension_addition marking are not those of its expansion (and not '
+                                 'one of the two known departures: copied components behind the own root components; components copied for '
+                                 'a notation after the marker unmarked)' % name)
     for j in coq_eval_bad('C02', REQ, 'list str * list str * list str * bool * list (str * bool)', 'corr_link', terms, label='link'):
         ck.broken.append({'kind': 'correspondence', 'item': 'COMPONENTS OF next to an extension marker (Expansion.link_marked)',
                           'detail': 'model and implementation disagree on %s in %s (%s)' % (idx[j][1], idx[j][0], terms[j][-300:])})
